@@ -166,6 +166,87 @@ def apply_rules(rules, model: onnx.ModelProto):
     return n, ir.serde.serialize_model(im)
 
 
+class RuleState:
+    """Pristine attribute state of every class-based rule object (`RewriteRuleClassBase` instances behind the shipped
+    module-level rule singletons).  `restore()` puts every instance back, so that each case starts from a fresh rule
+    object and *history* enters only through a case's explicit `pre` list (replays stay self-contained)."""
+
+    def __init__(self):
+        import copy
+        import importlib
+        import pkgutil
+
+        import onnxscript.rewriter as RW
+        from onnxscript.rewriter import RewriteRule, RewriteRuleSet
+        from onnxscript.rewriter.rules import common, fusion
+
+        rules = list(RW._DEFAULT_REWRITE_RULES)
+        mods = [common]
+        for pkg in (common, fusion):
+            for mi in pkgutil.iter_modules(pkg.__path__):
+                if mi.name.endswith("_test"):
+                    continue
+                try:
+                    mods.append(importlib.import_module(pkg.__name__ + "." + mi.name))
+                except Exception:
+                    pass
+        for m in mods:
+            for v in vars(m).values():
+                if isinstance(v, RewriteRule):
+                    rules.append(v)
+                elif isinstance(v, RewriteRuleSet):
+                    rules.extend(v.rules)
+                elif isinstance(v, (list, tuple)) and v and all(isinstance(x, RewriteRule) for x in v):
+                    rules.extend(v)
+        self.snap = {}
+        for r in rules:
+            for inst in self._instances(r):
+                if id(inst) not in self.snap:
+                    self.snap[id(inst)] = (inst, copy.copy(vars(inst)))
+
+    @staticmethod
+    def _instances(rule, depth=0):
+        out = []
+        for v in vars(rule).values():
+            s = getattr(v, "__self__", None)
+            if s is not None and not isinstance(s, type) and hasattr(s, "__dict__"):
+                out.append(s)
+            elif depth < 2 and hasattr(v, "__dict__") and type(v).__module__.startswith("onnxscript.rewriter"):
+                out += RuleState._instances(v, depth + 1)
+        return out
+
+    def restore(self):
+        import copy
+
+        for inst, d in self.snap.values():
+            cur = vars(inst)
+            if cur.keys() != d.keys() or any(cur[k] is not d[k] for k in d if k != "_compiled_pattern"):
+                keep = cur.get("_compiled_pattern")          # a cache of the compiled target pattern, not rule state
+                cur.clear()
+                cur.update(copy.copy(d))
+                if keep is not None:
+                    cur["_compiled_pattern"] = keep
+
+
+_RULE_STATE = None
+
+
+def rule_state() -> RuleState:
+    """Created on first use — call once before any rule has been applied in this process."""
+    global _RULE_STATE
+    if _RULE_STATE is None:
+        _RULE_STATE = RuleState()
+    return _RULE_STATE
+
+
+def default_ruleset():
+    """A fresh `RewriteRuleSet` over the shipped `_DEFAULT_REWRITE_RULES` (their order, their rule objects)."""
+    import onnxscript.rewriter as RW
+    from onnxscript.rewriter import RewriteRuleSet
+
+    return RewriteRuleSet(list(RW._DEFAULT_REWRITE_RULES))
+
+
 # --------------------------------------------------------------------------- oracle (search / judgement of unproved rules)
 
 
